@@ -82,6 +82,9 @@ pub fn password_strategy() -> BoxedStrategy<Vec<u8>> {
         2 => proptest::collection::vec(any::<u8>(), 1..40),
         2 => (62usize..68, any::<u64>()).prop_map(|(n, s)| bytes_from(s, n)),
         1 => (65usize..300, any::<u64>()).prop_map(|(n, s)| bytes_from(s, n)),
+        // whitespace at the edges (what a trimming bug would eat)
+        2 => "[ -~]{0,12}[ \t\n\r]".prop_map(|s| s.into_bytes()),
+        1 => "[ \t][ -~]{1,10}".prop_map(|s| s.into_bytes()),
     ].boxed()
 }
 /// UTF-8 passwords without NUL (usable in environment variables).
@@ -92,6 +95,9 @@ pub fn env_password_strategy() -> BoxedStrategy<String> {
         2 => "[\\PC&&[^\\x00]]{1,12}",
         1 => "[a-zA-Z0-9 ]{62,67}",
         1 => "[a-z]{65,200}",
+        1 => "[!-~]{1,10}[ \t]",
+        1 => "[ \u{3000}\t][!-~]{1,10}",
+        1 => "[!-~]{1,6} ",
     ].boxed()
 }
 /// The 64-byte HMAC key block of a password: passwords with equal blocks are the same scrypt/PBKDF2 key (RFC 2104).
@@ -109,6 +115,10 @@ pub fn wrong_passwords(w: &[u8], sel: u64) -> Vec<(Vec<u8>, &'static str)> {
         v.push((Vec::new(), "empty"));
     } else { v.push((b"x".to_vec(), "nonempty")); }
     let mut x = w.to_vec(); x.push(b'a'); v.push((x, "append"));
+    let mut x = w.to_vec(); x.push(b' '); v.push((x, "append-space"));
+    let mut x = w.to_vec(); x.push(b'\n'); v.push((x, "append-newline"));
+    if w.last().map(|c| c.is_ascii_whitespace()).unwrap_or(false) { let mut x = w.to_vec(); while x.last().map(|c| c.is_ascii_whitespace()).unwrap_or(false) { x.pop(); } v.push((x, "trimmed")); }
+    if w.first().map(|c| c.is_ascii_whitespace()).unwrap_or(false) { v.push((w[1..].to_vec(), "left-trimmed")); }
     v.push((b"an unrelated password".to_vec(), "unrelated"));
     let mut x = w.to_vec(); x.push(0); v.push((x, "equiv:nul"));
     if w.len() > 64 { v.push((kspec::sha256(w).to_vec(), "equiv:digest")); }
